@@ -134,8 +134,15 @@ def run_case(ctx, spec, traps, c, out, cache={}, other_spec=None):
     stamped = prog.similar()
     rewrite.Walk(InjectSpecRule(spec)).rewrite(stamped.code)
     res = {}
-    res["spec"] = canon_run(EV.run_with_events(prog, spec, rargs))
-    res["main"] = canon_run(EV.run_with_events(stamped, spec, rargs, plain=True))
+    objs = {}
+
+    def keep(k, run):
+        plays = [e for e in run.events if e[0] == "play"] if run.error is None else []
+        if len(plays) == 1:
+            objs[k] = plays[0][1]
+        return canon_run(run)
+    res["spec"] = keep("spec", EV.run_with_events(prog, spec, rargs))
+    res["main"] = keep("main", EV.run_with_events(stamped, spec, rargs, plain=True))
     res["main_nospec"] = canon_run(EV.run_with_events(prog, spec, rargs, plain=True))
 
     def fold(mt):
@@ -148,9 +155,23 @@ def run_case(ctx, spec, traps, c, out, cache={}, other_spec=None):
             return f"<{len(gens)} gens>"
         r = frame.entries.get(gens[0].result)
         if isinstance(r, const.Value):
+            if mt is stamped:
+                objs["constprop"] = r.data
             return "ok " + safe_canon(r.data)
         return "unfolded"
     res["constprop"] = fold(stamped)
+    # the routes' path objects are equal as Python values too (the canonical form does not show, e.g., IList against list)
+    ks = sorted(objs)
+    for i, a in enumerate(ks):
+        for b in ks[i + 1:]:
+            ctx.count("route_object_pairs")
+            try:
+                same = objs[a] == objs[b] and objs[b] == objs[a]
+            except Exception:  # noqa: BLE001
+                same = False
+            if not same and safe_canon(objs[a]) == safe_canon(objs[b]):
+                ctx.fail({"source": src[len(MOVE_HDR):], "wire_args": sx(list(c["wire"]))},
+                         f"routes {a} and {b} return paths that print alike but are not equal: {repr(objs[a])[:200]} vs {repr(objs[b])[:200]}")
     res["constprop_nospec"] = fold(prog)
     if other_spec is not None:
         # the spec-carrying interpreter traces with the spec it carries, whether or not a (different) spec is recorded on the call
@@ -266,6 +287,38 @@ def inner(n: int):
 def plain_sub(n: int):
     inner(n)
 
+@tweezer
+def shift_by(dx: float):
+    def closure_kernel(x: float, y: float):
+        start = grid.from_positions([x], [y])
+        action.set_loc(start)
+        action.turn_on(action.ALL, [0])
+        action.move(grid.shift(start, dx, 0.0))
+        action.move(grid.shift(start, dx, 2.0))
+        action.turn_off(action.ALL, [0])
+    return closure_kernel
+
+@move
+def closure_carried(x: float, y: float):
+    dev = schedule.device_fn(shift_by(3.0), [0], [0])
+    rev = schedule.reverse(dev)
+    dev(x, y=y)
+    rev(y=y, x=x)
+
+@move(arch_spec=_C05.SPEC_SLOT)
+def closure_recorded(x: float, y: float):
+    dev = schedule.device_fn(shift_by(3.0), [0], [0])
+    rev = schedule.reverse(dev)
+    dev(x, y=y)
+    rev(y=y, x=x)
+
+@move(arch_spec=_C05.SPEC_SLOT)
+def closure_folded():
+    dev = schedule.device_fn(shift_by(3.0), [0], [0])
+    rev = schedule.reverse(dev)
+    dev(1.0, y=2.0)
+    rev(y=2.0, x=1.0)
+
 @move(arch_spec=_C05.SPEC_SLOT)
 def compiled_sub(n: int):
     inner(n)
@@ -289,6 +342,24 @@ def subcall_stream(ctx, spec):
             ctx.fail({"source": SUBCALL_SRC[len(MOVE_HDR):], "args": [n]},
                      f"device calls in an invoked subroutine: the kernel compiled with the spec, run by the plain interpreter, gives "
                      f"{rb[:200]}; the spec-carrying interpreter on the unspecialised kernel gives {ra[:200]}")
+
+
+def closure_stream(ctx, spec):
+    """a device function over a closure kernel (a tweezer kernel returned by a tweezer kernel, capturing its argument): the
+    three routes give the same two paths"""
+    global SPEC_SLOT
+    SPEC_SLOT = spec
+    mod = T.load_source(SUBCALL_SRC, "c05c")
+    a = EV.run_with_events(mod.closure_carried, spec, (1.0, 2.0))
+    b = EV.run_with_events(mod.closure_recorded, spec, (1.0, 2.0), plain=True)
+    c = EV.run_with_events(mod.closure_folded, spec, (), plain=True)
+    rs = {"spec-carrying interpreter": a, "plain interpreter, recorded spec": b, "folded at compile time": c}
+    canon = {k: ("err" if r.error else EV.canon_events(r.events)) for k, r in rs.items()}
+    ctx.count("closure_kernel_runs", 3)
+    if len(set(canon.values())) != 1 or "err" in canon.values():
+        ctx.fail({"source": SUBCALL_SRC[len(MOVE_HDR):], "args": [1.0, 2.0]},
+                 "a device function over a closure kernel: the routes differ or raise: " +
+                 " | ".join(f"{k}: {v[:120]}" for k, v in canon.items()))
 
 
 def second_spec():
@@ -319,6 +390,7 @@ def run(ctx):
             ctx.count("second_spec_runs")
             run_case(ctx, spec2, traps2, c, out, other_spec=spec)
     subcall_stream(ctx, spec)
+    closure_stream(ctx, spec)
     if ctx.counts.get("compile_fail", 0) > 0.3 * n:
         raise HarnessFault("generator degenerate: >30% of generated programs do not compile")
     keys = ["spec", "main", "main_nospec", "constprop", "constprop_nospec"]
